@@ -533,6 +533,26 @@ def _name_span_guards(col, rule="C08.R7"):
                     "a:b (or a:b:<index column>) resolves the names on the index column, a:b:'col' searches that column", str([S.show(c) for c in cs][:3]))
 
 
+def _span_on_named_column(col, rule="C08.R7"):
+    """string bounds with a step naming a column (`'a':'b':'col'`) are a span between the first rows holding those names in that
+    column (the index resolver when the column is the index column) -- not an alphabetical value range"""
+    sx, row, start, stop, step = _selector(col)
+    if not col.repo.has_method("Table", "_get_row_where_col"):
+        raise AnalysisError("Table._get_row_where_col not found -- cannot decide")
+    calls = [ev for ev in sx.of_kind("call") if ev.term[:1] == ("call",) and ev.term[1][:1] == ("attr",) and ev.term[1][1] == S.SELF
+             and ev.term[1][2] == "_get_row_where_col" and ev.term[2] and ev.term[2][-1] in (start, stop)]
+    ends = {ev.term[2][-1] for ev in calls}
+    col.add(rule, "Table._get_row_indices#span-on-a-named-column", ends == {start, stop}, sx.loc(calls[0]) if calls else sx.loc(sx.fn),
+            "both ends of a:b:'col' given as names are looked up in that column", f"ends looked up in the named column: {[S.show(e, False) for e in ends]}")
+    idx = [ev for ev in sx.of_kind("call") if ev.term[:1] == ("call",) and ev.term[1][:1] == ("attr",) and ev.term[1][1] == S.SELF
+           and ev.term[1][2] == "_get_row_index" and ev.term[2] and ev.term[2][-1] in (start, stop)]
+    on_index = ("cmp", "==", step, INDEX)
+    reach = [ev for ev in idx if not any(c in (("cmp", "is", step, ("const", "None")),) for c in sx.conds(ev.nid))
+             or any(c[:2] == ("bool", "or") and on_index in c[2] for c in sx.conds(ev.nid))]
+    col.add(rule, "Table._get_row_indices#span-with-the-index-column-named", bool(reach), sx.loc(idx[0]) if idx else sx.loc(sx.fn),
+            "a:b:<index column> is the span a:b (the index resolver is reached when the step names the index column)", "")
+
+
 def _empty_selection(col, rule="C08.R6"):
     """an empty list selects no row: what is returned for it must be usable as an index array (integer dtype); numpy converts `[]` to
     float64, which cannot index"""
@@ -562,6 +582,8 @@ def check(col: Collector):
         _empty_selection(col)
     with col.rule():
         _name_span_guards(col)
+    with col.rule():
+        _span_on_named_column(col)
     with col.rule():
         _none_operands(col)
     with col.rule():
